@@ -1086,6 +1086,21 @@ impl Thread {
         self.child_threads.read().unwrap().trace(gc);
     }
 
+    /// Whether `self` is `ancestor` or one of its descendants (which may refer to values owned by
+    /// `ancestor`)
+    pub(crate) fn is_descendant_of(&self, ancestor: &Thread) -> bool {
+        let mut current = self;
+        loop {
+            if current as *const Thread == ancestor as *const Thread {
+                return true;
+            }
+            match current.parent {
+                Some(ref parent) => current = parent,
+                None => return false,
+            }
+        }
+    }
+
     pub(crate) fn parent_threads(&self) -> sync::RwLockWriteGuard<'_, ThreadSlab> {
         match self.parent {
             Some(ref parent) => parent.child_threads.write().unwrap(),
